@@ -295,7 +295,7 @@ def sma_energy(vc):
     vc.ensure("O-C12-energy.period", vc.eq(P * n, 2 * vc.pi) if vc.symbolic else abs(P * n - TWO_PI) < 1e-9)
 
 
-@obligation("C12", "ecc_vector", ensures=["O-C12-eccvec.perifocal", "O-C12-eccvec.unit", "O-C12-eccvec.angular-momentum", "O-C12-eccvec.line-of-nodes"],
+@obligation("C12", "ecc_vector", ensures=["O-C12-eccvec.perifocal", "O-C12-eccvec.unit", "O-C12-eccvec.angular-momentum", "O-C12-eccvec.line-of-nodes", "O-C12-eccvec.cut-raw"],
             fns=[UT + "getEccentricity", UT + "getAngularMomentum", UT + "getLineOfNodes"], mode="R", timeout_ms=60000, nlsat_first=True,
             note="for the perifocal state of an ellipse (r = p/(1+e cos nu)(cos nu, sin nu, 0), v = sqrt(mu/p)(-sin nu, e + cos nu, 0)) the eccentricity vector is e x (unit vector "
                  "x when e > 0), h = r x v = sqrt(mu p) z, and the line of nodes is z x h for any h")
@@ -316,6 +316,16 @@ def ecc_vector(vc):
     if vc.symbolic:
         # |r| and |v| as the harness knows them (the body takes norm(): sqrt of the sum of squares)
         vc.axiom(vc.eq(vc.norm(r_vec), rm), "norm of (rm cos nu, rm sin nu, 0) is rm for rm > 0 (sqrt(rm^2 (cos^2 + sin^2)) = rm)")
+    if vc.symbolic:
+        # staged: |v|^2 and the un-normalised eccentricity vector (polynomial facts), then the square root of e^2
+        v2 = q * q * (1 + 2 * e * c + e * e)
+        nv = vc.norm(v_vec)
+        vc.cut("O-C12-eccvec.cut-raw", vc.And(vc.eq(nv * nv, v2), nv > 0))
+        rv = r_vec[0] * v_vec[0] + r_vec[1] * v_vec[1]
+        raw = [((nv * nv - mu / rm) * r_vec[i] - rv * v_vec[i]) / mu for i in range(2)]
+        vc.cut("O-C12-eccvec.cut-raw", vc.And(vc.eq(raw[0], e), vc.eq(raw[1], 0)))
+    else:
+        vc.ensure("O-C12-eccvec.cut-raw", True)
     ecc, evec = vc.fn(UT + "getEccentricity")(r_vec, v_vec, mu=mu)
     vc.ensure("O-C12-eccvec.perifocal", vc.close(ecc, e, 1e-9))
     vc.ensure("O-C12-eccvec.unit", vc.And(vc.close(evec[0], 1.0, 1e-8), vc.close(evec[1], 0.0, 1e-8), vc.close(evec[2], 0.0, 1e-8)))
@@ -442,9 +452,15 @@ def eci2coe_cases(vc):
     pos = vc.vec("pos", 3, -5e4, 5e4)
     vel = vc.vec("vel", 3, -10, 10)
     mu = vc.real("mu", 1.0, 1e6, special=[398600.4418])
-    hx = pos[1] * vel[2] - pos[2] * vel[1]
-    hy = pos[2] * vel[0] - pos[0] * vel[2]
-    hz = pos[0] * vel[1] - pos[1] * vel[0]
+    if vc.symbolic:
+        # angular momentum and node vector enter by their contracts (O-C12-eccvec.angular-momentum: r x v; O-C12-eccvec.line-of-nodes: z x h) as stand-ins that record their arguments:
+        # h is then a vector of its own, which keeps the case analysis free of the cross-product polynomials
+        hvec = vc.vec("h", 3, -1e6, 1e6)
+        hx, hy, hz = hvec[0], hvec[1], hvec[2]
+    else:
+        hx = pos[1] * vel[2] - pos[2] * vel[1]
+        hy = pos[2] * vel[0] - pos[0] * vel[2]
+        hz = pos[0] * vel[1] - pos[1] * vel[0]
     vc.assume(hx * hx + hy * hy + hz * hz > 1.0)
     vc.assume(pos[0] * pos[0] + pos[1] * pos[1] + pos[2] * pos[2] > 1.0)
     inclined, eccentric = vc.bool("inclined"), vc.bool("eccentric")
@@ -467,6 +483,9 @@ def eci2coe_cases(vc):
     vc.install(UT + "getTrueLongitude", mk("truelon", outs["truelon"]))
     vc.install(UT + "getSemiMajorAxis", mk("sma", sma_out))
     vc.install(UT + "getEccentricity", mk("ecc", (ecc_out, evec)))
+    if vc.symbolic:
+        vc.stub(UT + "getAngularMomentum", mk("h", np.array([hx, hy, hz], dtype=object)))
+        vc.stub(UT + "getLineOfNodes", mk("node", np.array([-hy, hx, 0 * hx], dtype=object)))
     vc.install(O + "isInclined", mk("isinc", inclined))
     vc.install(O + "isEccentric", mk("isecc", eccentric))
     state = np.concatenate([pos, vel]).astype(dt)
@@ -480,6 +499,10 @@ def eci2coe_cases(vc):
                        vc.close(a_sma[0], vc.norm(pos), 1e-9), vc.close(a_sma[1], vc.norm(vel), 1e-12), vc.close(mu_of(a_sma, k_sma, 2), mu, 0.0),
                        eqv(a_ecc[0], pos), eqv(a_ecc[1], vel), vc.close(mu_of(a_ecc, k_ecc, 2), mu, 0.0),
                        vc.close(rec.calls["isecc"][0][0][0], ecc_out, 0.0), vc.close(rec.calls["isinc"][0][0][0], res[2], 0.0))
+    if vc.symbolic:
+        (a_h, _), = rec.calls["h"]
+        (a_n, _), = rec.calls["node"]
+        common_ok = vc.And(common_ok, eqv(a_h[0], pos), eqv(a_h[1], vel), all(a_n[0][i] is (hx, hy, hz)[i] for i in range(3)))
     vc.ensure("O-C12-eci2coe.common", common_ok)
     vc.ensure("O-C12-eci2coe.inclination", vc.close(vc.cos(res[2]) * hn, hz, 1e-6 * 1e5) if not vc.symbolic else vc.And(res[2] >= 0, res[2] <= vc.pi, vc.eq(vc.cos(res[2]) * hn, hz)))
     nn = vc.sqrt(hx * hx + hy * hy)
